@@ -361,13 +361,15 @@ def assignsVarL (x : String) (cb : List DS) : Bool :=
 /-- trigger of the open known finding K-C01D-1 on one function body: the declaration that receives the hoisted names is
     the empty head of a `while` loop standing in a block, and one of the hoisted names is declared with let / const in
     that block -/
-def d1Body (body : List DS) : Bool :=
-  let ds := collectL isShadowedKnowsWhile [] body
+def d1BodyG (kw : Bool) (body : List DS) : Bool :=
+  let ds := collectL kw [] body
   match plan ds with
   | none => false
   | some p =>
     let target := ds.getD p.best default
     (ds.zip p.hoist).any (fun dh => dh.2 && (itemNames dh.1.items).any (fun x => target.skipped.contains x))
+
+def d1Body (body : List DS) : Bool := d1BodyG isShadowedKnowsWhile body
 
 mutual
 def d1S : DS → Bool
@@ -1214,10 +1216,12 @@ def endsInIf : Nat → DS → SM (Bool × DS)
       (match splitLast l with
        | some (init, s1) => do let r ← endsInIf fuel s1; pure (r.1, .block (init ++ [r.2]))
        | none => pure (false, s))
-    | .forS w i c p b =>
-      (match splitLast b with
-       | some (init, s1) => do let r ← endsInIf fuel s1; pure (r.1, .forS w i c p (init ++ [r.2]))
-       | none => pure (false, s))
+    | .forS w i c p b => do
+      -- (repaired code: the body is optimized first, statements at its end may disappear)
+      let b1 ← (if endsInIfOptimizesLoops then optList (4 * sizeSL b + 16) b .iteration else pure b : SM (List DS))
+      match splitLast b1 with
+      | some (init, s1) => do let r ← endsInIf fuel s1; pure (r.1, .forS w i c p (init ++ [r.2]))
+      | none => pure (false, .forS w i c p b1)
     | _ => pure (false, s)
 end
 
